@@ -95,7 +95,26 @@ impl ProgramLines {
         for (line_number, tokens) in self.list_tokens() {
             let line = tokens
                 .iter()
-                .map(|token| token.to_string())
+                .enumerate()
+                .map(|(i, token)| {
+                    let mut string = token.to_string();
+                    // Blanks are ignored when a line is read back, so a numeral listed
+                    // right after an identifier would be absorbed into it. The only
+                    // numerals that can follow one start with a decimal point, so list
+                    // them that way again, without the leading zero.
+                    if let (Some(Token::Symbol(symbol)), Token::NumericLiteral(_)) =
+                        (i.checked_sub(1).map(|prev| &tokens[prev]), token)
+                    {
+                        if !symbol.as_str().ends_with('$') && string.starts_with('0') {
+                            if string == "0" {
+                                string = String::from(".0");
+                            } else {
+                                string.remove(0);
+                            }
+                        }
+                    }
+                    string
+                })
                 .collect::<Vec<String>>()
                 .join(" ");
             let line_source = format!("{} {}\n", line_number, line);
